@@ -56,6 +56,42 @@ static bool check_buffer(uint16_t st, const uint8_t *p, size_t n, size_t split, 
     return ok;
 }
 
+// The functions are pure, so they may be called from an interrupt while the interrupted code is inside them (the usual embedded use: an
+// ISR checksums its frame while the main line checksums a record). A POSIX timer fires every 150 us; its handler checksums its own buffer,
+// the main line checksums buffers of several KiB and compares with the reference. Which call gets interrupted where is up to the clock, so a
+// run that sees nothing proves little - but a mismatch is a real one: nothing else can change the result of a pure function.
+#include <signal.h>
+#include <time.h>
+static uint8_t g_isr_buf[96]; static volatile uint16_t g_isr_want; static volatile unsigned g_isr_runs, g_isr_bad;
+static void isr(int) { uint16_t c = ufw_crc16_arc(0x1d0f, g_isr_buf, sizeof g_isr_buf); g_isr_runs++; if (c != g_isr_want) g_isr_bad++; }
+static bool interrupt_stress(unsigned millis) {
+    for (size_t i = 0; i < sizeof g_isr_buf; i++) g_isr_buf[i] = (uint8_t)(0xc3 ^ (i * 29));
+    g_isr_want = ref::crc16_arc(0x1d0f, g_isr_buf, sizeof g_isr_buf); g_isr_runs = g_isr_bad = 0;
+    struct sigaction sa; memset(&sa, 0, sizeof sa); sa.sa_handler = isr; sigemptyset(&sa.sa_mask); sa.sa_flags = SA_RESTART;
+    if (sigaction(SIGRTMIN + 3, &sa, nullptr) != 0) return true;
+    timer_t tm; struct sigevent se; memset(&se, 0, sizeof se); se.sigev_notify = SIGEV_SIGNAL; se.sigev_signo = SIGRTMIN + 3;
+    if (timer_create(CLOCK_MONOTONIC, &se, &tm) != 0) return true;
+    struct itimerspec its; its.it_value.tv_sec = 0; its.it_value.tv_nsec = 150000; its.it_interval = its.it_value;
+    timer_settime(tm, 0, &its, nullptr);
+    std::vector<uint8_t> buf(6000); for (size_t i = 0; i < buf.size(); i++) buf[i] = (uint8_t)(i * 7 + (i >> 8));
+    struct timespec t0, t1; clock_gettime(CLOCK_MONOTONIC, &t0);
+    unsigned long rounds = 0, bad = 0; size_t badlen = 0;
+    for (;;) {
+        for (int k = 0; k < 64; k++) {
+            size_t n = 1000 + (rounds * 37 + (unsigned)k * 101) % 5000; uint16_t st = (uint16_t)(rounds * 31 + (unsigned)k);
+            uint16_t got = ufw_crc16_arc(st, buf.data(), n), got2 = ufw_crc16_arc_u16(st, (const uint16_t *)buf.data(), n / 2);
+            if (got != ref::crc16_arc(st, buf.data(), n) || got2 != ref::crc16_arc(st, buf.data(), n / 2 * 2)) { bad++; badlen = n; }
+        }
+        rounds++; vp::alive();
+        clock_gettime(CLOCK_MONOTONIC, &t1);
+        if ((t1.tv_sec - t0.tv_sec) * 1000 + (t1.tv_nsec - t0.tv_nsec) / 1000000 >= (long)millis) break;
+    }
+    memset(&its, 0, sizeof its); timer_settime(tm, 0, &its, nullptr); timer_delete(tm); signal(SIGRTMIN + 3, SIG_IGN);
+    vp::count(rounds * 128 + g_isr_runs); vp::cls("calls-interrupted-by-a-handler-that-checksums", g_isr_runs);
+    vp::stats().notes["interrupt_stress"] = vp::fmt("%lu main-line rounds of 128 calls, %u handler runs in %u ms", rounds, (unsigned)g_isr_runs, millis);
+    if (bad || g_isr_bad) { vp::fail("interrupted:value", vp::fmt("%lu main-line results and %u handler results differ from the reference while a timer handler that calls ufw_crc16_arc interrupts the main line (e.g. a buffer of %zu octets)", bad, (unsigned)g_isr_bad, badlen), "interrupt-stress\n"); return false; }
+    return true;
+}
 static void run() {
     auto &a = vp::args();
     vp::Rng rng(a.seed * 7919 + a.shard);
@@ -63,8 +99,9 @@ static void run() {
 #ifdef VP_FAST
     fast = true;
 #endif
+    if (!fast && a.shard == a.nshards - 1) interrupt_stress(a.thorough() ? 6000 : 1200);
     if (!fast) {
-        vp::stats().rule = "enum: all 2^24 (state, octet) pairs of the update step; known check value; random buffers <= 4 KiB split at every position; buffers of 2^8/2^15/2^16/2^17 (+-1,2) octets and words; word buffers of every length 0..64 from random states; every buffer again after an in-place change (identical arguments) and at an odd start address; every 4-octet buffer over {state low, state high, 00, ff, low^1} from every state; messages followed by their own checksum and zero padding";
+        vp::stats().rule = "enum: all 2^24 (state, octet) pairs of the update step; known check value; random buffers <= 4 KiB split at every position; buffers of 2^8/2^15/2^16/2^17 (+-1,2) octets and words; word buffers of every length 0..64 from random states; every buffer again after an in-place change (identical arguments) and at an odd start address; every 4-octet buffer over {state low, state high, 00, ff, low^1} from every state; messages followed by their own checksum and zero padding; 1.2 s (thorough 6 s) of calls interrupted every 150 us by a timer handler that checksums its own buffer";
         vp::stats().exhaustive = true;
         // (1) all (state, octet) pairs, dealt to shards by state
         static uint32_t cur_st, cur_o;
@@ -173,6 +210,7 @@ static void run() {
 }
 static bool replay(const std::string &text) {
     auto w = vp::split(vp::lines(text).at(0));
+    if (!w.empty() && w[0] == "interrupt-stress") return interrupt_stress(3000);
     if (w.size() < 4 || w[0] != "crc") return false;
     uint16_t st = (uint16_t)strtoul(w[1].c_str(), 0, 10);
     std::vector<uint8_t> buf = w[2] == "-" ? std::vector<uint8_t>() : vp::unhex(w[2]);
